@@ -458,7 +458,8 @@ def _check_ctor(repo, R, h: Handler, hp: HPath, f, line, tparams, ops):
             R("C05", "C05.R4", "bad", h, line, f"non-homogeneous {sorted(ops & NONHOM_OPS)} on raw payload", f"{sorted(ops & NONHOM_OPS)} applied to the raw payload with the scale unchanged: f(s*x) != s*f(x)", "any input whose scale is not 1")
         else:
             R("C05", "C05.R4", "unknown", h, line, "", f"ops {sorted(ops)} with unchanged scale: class not decided")
-        _c06_fields(R, h, hp, f, line, x, ops, reshaping=bool(ops & MOVE_OPS) and not identity_guard(hp, x, ops))
+        ident = identity_guard(hp, x, ops)
+        _c06_fields(R, h, hp, f, line, x, ops, reshaping=bool(ops & MOVE_OPS) and not ident, transposed=ops <= {"aten.t"} and not ident, check_axis=True)
         return
     if sc_moved:
         same_args = [U(a) for a in scale.args[1:]] == [U(a) for a in inner.args[1:]]
@@ -480,17 +481,17 @@ def _check_ctor(repo, R, h: Handler, hp: HPath, f, line, tparams, ops):
     R("C05", "C05.R4", "bad", h, line, f"scale term for {sorted(ops)}", f"scale `{stxt[:80]}` is neither the operand's scale nor the op applied to it", "any input")
 
 
-def _c06_fields(R, h: Handler, hp: HPath, f, line, x, ops, reshaping: bool, transposed: bool = False):
+def _c06_fields(R, h: Handler, hp: HPath, f, line, x, ops, reshaping: bool, transposed: bool = False, check_axis: bool = False):
     """C06.R1/R2: qtype, axis, size, stride of the re-wrapped tensor."""
     data = f["data"]
     dtxt = U(data)
     qt, ax, sz, st = U(f["qtype"]), U(f["axis"]), U(f["size"]), U(f["stride"])
     R("C06", "C06.R2", "ok" if qt in (f"{x}.qtype", f"{x}._qtype") else "bad", h, line, "qtype carried", f"qtype `{qt}` is the source operand's qtype", "any input: the result claims another storage type")
-    if not transposed:
+    if not transposed or check_axis:
         ax_ok = ax in (f"{x}.axis", f"{x}._axis") or (ax == "None" and hp.fact(f"{x}.axis is None") is True)
         R("C06", "C06.R2", "ok" if ax_ok else "bad", h, line, "axis carried", f"axis `{ax}` is the source operand's axis (or None under a per-tensor guard)", "a per-axis operand: the declared axis no longer matches the scale")
     if transposed:
-        ok = sz in (f"torch.Size([{x}.size()[1], {x}.size()[0]])", f"{x}.size()[::-1]", f"torch.Size({x}.size()[::-1])") and st in (f"{x}.stride()[::-1]",)
+        ok = (sz in (f"torch.Size([{x}.size()[1], {x}.size()[0]])", f"{x}.size()[::-1]", f"torch.Size({x}.size()[::-1])", f"torch.Size([{x}.shape[1], {x}.shape[0]])") and st in (f"{x}.stride()[::-1]",)) or (sz == f"{dtxt}.size()" and st == f"{dtxt}.stride()")
         R("C06", "C06.R1", "ok" if ok else "bad", h, line, "transposed size/stride", f"size `{sz}` / stride `{st}` are the reversed geometry of `{x}`", "any non-square matrix")
         return
     if reshaping:
